@@ -431,3 +431,11 @@ func VerifDrainQueryHandlers(db *DB, partition int) {
 	for db.remoteQueryHandlerForPartition(partition) != nil {
 	}
 }
+
+// VerifQueryHandlerCount tells how many remote query handlers are currently
+// registered (and unused) for the partition.
+func VerifQueryHandlerCount(db *DB, partition int) int {
+	db.tablesMutex.RLock()
+	defer db.tablesMutex.RUnlock()
+	return len(db.remoteQueryHandlers[partition])
+}
